@@ -6,6 +6,8 @@
 -/
 import StathamModel.SerJson
 import StathamModel.Lemmas.SerOk
+import StathamModel.Lemmas.ParseNF
+import StathamModel.Lemmas.CallVerdict
 import StathamModel.Dedupe
 import StathamModel.Tie
 namespace Statham.C06
@@ -76,6 +78,54 @@ theorem C06_partial_iterate (cx : PCtx) (e : Elem) (h : NF cx e) (n : Nat) : rou
   induction n with
   | zero => rfl
   | succ n ih => rw [roundTrips, parse_toSchema cx e h, ih]
+
+/-- **Proved: the property's JSON leg, with a decidable hypothesis on the source schema only.**  `nfGood cx s` asks of every
+    schema object in `s`: clean literals; no empty `required` and `properties` present exactly when non-empty (finding
+    C06-empty-keyword-beside-composition); distinct, non-collapsing, non-empty property names; `type` over the seven type names;
+    for object schemas a title that formats to itself (finding C06-class-name-suffixes and the title findings of C12);
+    `additionalItems` / `additionalProperties` given as a schema do not parse to `Nothing()`; no default next to composition
+    members that parse to `Nothing()` (finding C06-nothing-with-default / C07-reduces-to-nothing).  Then the first parse is
+    in normal form (`parse_NF`: one node equation per shape the parser can build — untyped, five typed leaves, arrays,
+    classes with synthetic required properties, type lists, `AllOf` / `AnyOf` / `OneOf` / `Not` with every collapse rule,
+    and the migration of `default`), so serializing and parsing again gives the identical tree … -/
+theorem C06_round_trip (cx : PCtx) (s : Schema) (h : nfGood cx s = true) :
+    parseE cx (toSchema (parseE cx s)) = parseE cx s :=
+  parse_toSchema cx _ (parse_NF cx s h)
+
+/-- … and the second-round document is the first-round document, as is every later one -/
+theorem C06_fixpoint (cx : PCtx) (s : Schema) (h : nfGood cx s = true) :
+    toSchema (parseE cx (toSchema (parseE cx s))) = toSchema (parseE cx s) :=
+  C06_partial_fixpoint cx s (parse_NF cx s h)
+
+theorem C06_iterate (cx : PCtx) (s : Schema) (h : nfGood cx s = true) (n : Nat) :
+    roundTrips cx n (parseE cx s) = parseE cx s :=
+  C06_partial_iterate cx _ (parse_NF cx s h) n
+
+/-- **The normal form means what the source means**: for a schema that meets the `Good` conditions of C01 and `nfGood`, and
+    whose normal-form document meets `Good` again, Draft 6 reads both documents alike on every value on which the parsed
+    element stays inside the arithmetic domain (C01_partial on the source, C03_partial_meaning on the normal form). -/
+theorem C06_meaning_preserved (env : Env) (cx : PCtx) (s : Schema) (v : JVal)
+    (hg : Good cx s = true) (hn : nfGood cx s = true) (hg' : Good cx (toSchema (parseE cx s)) = true)
+    (hv : distinctKeys v = true) (hnc : (parseE cx s).acc env (.val v) ≠ .crash) :
+    D6.valid env typeHasObject s v = D6.valid env typeHasObject (toSchema (parseE cx s)) v := by
+  have h1 := ((parse_ok env cx s hg).1 v hv).eq_of_ne_crash hnc
+  have h2 := ((ser_ok env cx (parseE cx s) (parse_NF cx s hn) hg').1 v hv).eq_of_ne_crash hnc
+  rw [h1] at h2
+  cases ha : D6.valid env typeHasObject s v <;> cases hb : D6.valid env typeHasObject (toSchema (parseE cx s)) v <;>
+    simp_all [V.ofBool]
+
+/-- non-vacuity: a class with a required undeclared name, an array property, a type list and composition with a default -/
+def sEx : Schema :=
+  .mk { type := .single "object", title := some "Order", required := some ["p", "ghost"], hasProps := true } [] none none
+    [("p", .mk { type := .single "array", itemsKind := .single, uniqueItems := some true }
+        [Schema.leaf { type := .single "integer", minimum := some (.int 1) }] none none [] [] none none [] [] [] [] none),
+     ("q", .mk { hasAnyOf := true, default := some (.str "x") } [] none none [] [] none none []
+        [Schema.leaf { type := .single "string" }, Schema.leaf { type := .list ["null", "boolean"] }] [] [] none),
+     ("r", .mk { hasAllOf := true } [] none none [] [] none none [] [] []
+        [Schema.leaf { minimum := some (.int 0) }, .mk {} [] none none [] [] none none [] [] [] [] (some (Schema.leaf { type := .single "null" }))] none)]
+    [] (some (.bool false)) none [] [] [] [] none
+
+theorem sEx_nfGood : nfGood cx0 sEx = true := by decide +kernel
 
 /-- finding C06-nothing-with-default at the excluded point: `Nothing()` carrying a default is not in normal form, and the
     round trip indeed loses the default -/
